@@ -6,7 +6,7 @@ CONSTANTS
   MaxKw = 2
   MaxSteps = 2
   MaxRebind = 1
-  CtorModeSet = {"distinct", "equal", "asdefault"}
+  CtorModeSet = {"distinct", "equal"}
   CallModeSet = {"distinct", "equal", "asbound"}
   FlagAtSet = {"init", "call"}
   AsCoded = FALSE
